@@ -34,5 +34,5 @@ SPEC = {
 
 def job(prop, tier, seed):
     s = SPEC[prop]
-    mk = driver.bounded_job(s["vals"], s["clauses"], BOUND, **s["space"])
+    mk = driver.bounded_job(s["vals"], list(s["clauses"]) + ["KERNEL/preconditions-of-the-join-kernel-hold-at-its-call-sites"], BOUND, **s["space"])
     return Job("%s/apply-bounded" % prop, mk(tier, seed), kind="B", func="gtirb_rewriting.rewriting:RewritingContext.apply")
